@@ -92,6 +92,9 @@ func (st *ConcState) SetFieldVal(obj ssa.Value, field string, v ssa.Value) {
 	st.fvals[st.fieldKey(obj, field)] = v
 }
 
+// Mem: what the local variable cell a holds on this path (nil: unknown).
+func (st *ConcState) Mem(a *ssa.Alloc) ssa.Value { return st.mem[a] }
+
 // SetAlias: on this exploration v stands for what (ConcCfg.Init: a parameter fixed to a value found elsewhere).
 func (st *ConcState) SetAlias(v, what ssa.Value) { st.alias[v] = what }
 
